@@ -1,4 +1,5 @@
 import Model.Txn.Offline
+import Model.Txn.Configure
 /-!
 # Specification of correct transaction framing of an offline script (C18)
 
